@@ -42,7 +42,7 @@ func init() {
 		Text: "Variables are looked up innermost scope first (the search starts at the last scope and walks towards the first) before the globals, and an assignment to a name that is an existing local updates that local instead of creating a global."})
 	register(&Rule{ID: "R-LENKIND", Floor: 3, Run: ruleLenKind,
 		Text: "len() counts elements of an array, pairs of a hash, and characters (runes, not bytes) of anything else's printed form."})
-	register(&Rule{ID: "R-TIMEFIELDS", Floor: 7, Run: ruleTimeFields,
+	register(&Rule{ID: "R-TIMEFIELDS", Floor: 8, Run: ruleTimeFields,
 		Text: "hour/minute/seconds/day/month/year/weekday each return the component of the host time library's decomposition that their name says (Clock: hour, minute, second; Date: year, month, day; Weekday().String())."})
 	register(&Rule{ID: "R-MACHINENIL", Floor: 1, Run: ruleMachineNil,
 		Text: "An API method without a recover of its own uses the prepared machine only after testing that Prepare built one."})
@@ -212,8 +212,12 @@ func ruleUnary(p *Program, r *Reporter) {
 	for _, cc := range ts.Body.List {
 		cl := cc.(*ast.CaseClause)
 		label := "default"
-		if len(cl.List) == 1 {
-			label = objectStructName(info.Types[cl.List[0]].Type)
+		if len(cl.List) >= 1 {
+			var names []string
+			for _, e := range cl.List {
+				names = append(names, objectStructName(info.Types[e].Type))
+			}
+			label = strings.Join(names, ",")
 		}
 		args := pushArgs(info, cl.Body)
 		if len(args) != 1 {
@@ -248,6 +252,13 @@ func ruleUnary(p *Program, r *Reporter) {
 			diffs = append(diffs, fmt.Sprintf("%s → %s (must be %s)", k, got[k], w))
 		}
 	}
+	for k, g := range got {
+		if _, ok := want[k]; !ok && g != "false" {
+			good = false
+			diffs = append(diffs, fmt.Sprintf("%s → %s (anything that is neither a boolean nor null must give false: !0 is false although 0 is not truthy)", k, g))
+		}
+	}
+	sort.Strings(diffs)
 	sort.Strings(diffs)
 	r.Check(good, key, p.Pos(fn.Pos()), "boolean → negated value, null → true, otherwise false", "the ! operator does not follow the language's table: "+strings.Join(diffs, "; "))
 }
@@ -967,6 +978,9 @@ func ruleKindTable(p *Program, r *Reporter) {
 	// expected: kind → (object type, accessor)
 	want := map[string][2]string{
 		"Int": {"Integer", "Int"}, "Int64": {"Integer", "Int"},
+		"Int8": {"Integer", "Int"}, "Int16": {"Integer", "Int"}, "Int32": {"Integer", "Int"},
+		"Uint8": {"Integer", "int64(Uint)"}, "Uint16": {"Integer", "int64(Uint)"}, "Uint32": {"Integer", "int64(Uint)"},
+		"Uint": {"Integer", "checked"}, "Uint64": {"Integer", "checked"},
 		"Float32": {"Float", "Float"}, "Float64": {"Float", "Float"},
 		"String": {"String", "String"}, "Bool": {"Boolean", "Bool"},
 	}
@@ -1003,6 +1017,25 @@ func ruleKindTable(p *Program, r *Reporter) {
 				kind := sel.Sel.Name
 				w, tracked := want[kind]
 				if !tracked {
+					// kinds the table does not require: they may yield null, but if a
+					// number object is built for them it must hold the value itself
+					if lit != nil && val != nil {
+						got := objectStructName(info.Types[lit].Type)
+						extra := "host kind " + kind + " (optional)"
+						unsigned64 := kind == "Uint" || kind == "Uint64" || kind == "Uintptr"
+						switch {
+						case strings.HasPrefix(kind, "Int") && got == "Integer" && strings.HasSuffix(exprStr(val), ".Int()"):
+							r.Ok(extra, p.Pos(val.Pos()), "→ Integer of field.Int()")
+						case strings.HasPrefix(kind, "Uint") && got == "Integer" && !unsigned64 && strings.Contains(exprStr(val), ".Uint()"):
+							r.Ok(extra, p.Pos(val.Pos()), "→ Integer of field.Uint(): every value of the kind fits")
+						case strings.HasPrefix(kind, "Uint") && got == "Integer" && clauseMentions(cl, "MaxInt64"):
+							r.Ok(extra, p.Pos(val.Pos()), "→ Integer of field.Uint() under a comparison with math.MaxInt64")
+						case strings.HasPrefix(kind, "Uint") && got == "Integer":
+							r.Fail(extra, p.Pos(val.Pos()), fmt.Sprintf("a host value of kind %s becomes Integer{Value: %s}: values from 2^63 upwards do not fit a signed 64-bit integer and arrive as negative numbers (MaxUint64 as -1) — the field is not converted without loss; such a kind must yield null or an error unless the range is checked", kind, exprStr(val)))
+						case got == "Integer" || got == "Float":
+							r.Undecided(extra, p.Pos(val.Pos()), fmt.Sprintf("a host value of kind %s becomes %s{Value: %s}: not a conversion this rule knows to be lossless", kind, got, exprStr(val)))
+						}
+					}
 					continue
 				}
 				seen[kind] = true
@@ -1012,6 +1045,39 @@ func ruleKindTable(p *Program, r *Reporter) {
 					continue
 				}
 				got := objectStructName(info.Types[lit].Type)
+				if w[1] == "int64(Uint)" || w[1] == "checked" {
+					// unsigned kinds: the value is int64(<the field's Uint()>); for the
+					// 64-bit kinds only under a comparison with math.MaxInt64
+					txt := exprStr(val)
+					okConv := got == w[0] && strings.HasPrefix(txt, "int64(")
+					src := ""
+					ast.Inspect(cl, func(m ast.Node) bool {
+						if c, ok := m.(*ast.CallExpr); ok {
+							if s, ok := c.Fun.(*ast.SelectorExpr); ok && s.Sel.Name == "Uint" && len(c.Args) == 0 {
+								src = "Uint"
+							}
+						}
+						return true
+					})
+					guarded := false
+					ast.Inspect(cl, func(m ast.Node) bool {
+						if be, ok := m.(*ast.BinaryExpr); ok && (be.Op == token.LEQ || be.Op == token.LSS || be.Op == token.GTR || be.Op == token.GEQ) {
+							if strings.Contains(exprStr(be), "MaxInt64") {
+								guarded = true
+							}
+						}
+						return true
+					})
+					switch {
+					case !okConv || src != "Uint":
+						r.Fail(key, p.Pos(val.Pos()), fmt.Sprintf("a host value of kind %s becomes %s{Value: %s}; it must become Integer of the value's Uint()", kind, got, txt))
+					case w[1] == "checked" && !guarded:
+						r.Fail(key, p.Pos(val.Pos()), fmt.Sprintf("a host value of kind %s becomes Integer{Value: %s} without a range check: values from 2^63 upwards do not fit a signed 64-bit integer and arrive as negative numbers (MaxUint64 as -1)", kind, txt))
+					default:
+						r.Ok(key, p.Pos(val.Pos()), "→ Integer of field.Uint()"+map[bool]string{true: " when it fits, else null", false: ""}[w[1] == "checked"])
+					}
+					continue
+				}
 				ce, isCall := ast.Unparen(val).(*ast.CallExpr)
 				acc := ""
 				if isCall {
@@ -1028,10 +1094,15 @@ func ruleKindTable(p *Program, r *Reporter) {
 		}
 		return false
 	})
+	var missing []string
 	for k := range want {
 		if !seen[k] {
-			r.Fail("host kind "+k, p.Pos(conv.Pos()), "the kind switch has no case for this kind: such fields become null")
+			missing = append(missing, k)
 		}
+	}
+	sort.Strings(missing)
+	for _, k := range missing {
+		r.Fail("host kind "+k, p.Pos(conv.Pos()), "the kind switch has no case for this kind: a field of this integer (or float, string, bool) kind reaches the script as null, not as its value — `struct{ Count int32 }{5}` makes `if (Count)` take the false branch")
 	}
 	// time.Time → Unix seconds, in both functions
 	for _, fn := range []*ssa.Function{conv, sliceConv} {
@@ -1044,6 +1115,56 @@ func ruleKindTable(p *Program, r *Reporter) {
 			}
 		}
 		r.Check(unix, fn.Name()+" converts time.Time to Unix seconds", p.Pos(fn.Pos()), "", "time.Time values are not converted with Unix(): scripts see something other than seconds since the epoch")
+	}
+	// (2a) every member of a host slice yields an element: the loop has no
+	// iteration that appends nothing
+	{
+		key := sliceConv.Name() + " keeps the length and order of a host slice"
+		var header *ssa.BasicBlock
+		for _, b := range sliceConv.Blocks {
+			for _, pd := range b.Preds {
+				if b.Dominates(pd) {
+					header = b
+				}
+			}
+		}
+		if header == nil {
+			r.Undecided(key, p.Pos(sliceConv.Pos()), "no loop over the members found")
+		} else {
+			appends := map[*ssa.BasicBlock]bool{}
+			for _, b := range sliceConv.Blocks {
+				for _, ins := range b.Instrs {
+					if _, ok := isBuiltinCall(valueOfInstr(ins), "append"); ok {
+						appends[b] = true
+					}
+				}
+			}
+			// a path header → … → header that avoids every appending block?
+			skip := false
+			seenB := map[*ssa.BasicBlock]bool{}
+			var w func(b *ssa.BasicBlock)
+			w = func(b *ssa.BasicBlock) {
+				if skip || seenB[b] || appends[b] {
+					return
+				}
+				seenB[b] = true
+				for _, s := range b.Succs {
+					if s == header {
+						skip = true
+						return
+					}
+					if header.Dominates(s) {
+						w(s)
+					}
+				}
+			}
+			for _, s := range header.Succs {
+				if header.Dominates(s) && s != header {
+					w(s)
+				}
+			}
+			r.Check(!skip, key, p.Pos(firstPos(header)), "every iteration appends an element", "some iteration of the loop over a host slice appends nothing: members the conversion does not know (null, nested arrays and objects of a JSON document, numbers of other sizes) are dropped, so len() and every later index disagree with the host's slice — `[1, null, 2]` has length 2 and its element 1 is 2")
+		}
 	}
 	// (2) slice elements: x, ok := in.(T); if ok { el = append(el, &object.O{Value: conv(x)}) }
 	wantElem := map[string]string{"string": "String", "bool": "Boolean", "float32": "Float", "float64": "Float", "int": "Integer", "int32": "Integer", "int64": "Integer"}
@@ -1379,6 +1500,32 @@ func ruleScopeSearch(p *Program, r *Reporter) {
 			}
 			if startsAtLen && stepsDown {
 				good = true
+				// where does the search stop?  A lower bound that is the constant 0
+				// means the callers' scopes are searched as well.
+				stopsAtZero, hasBound := false, false
+				for _, ref := range *ph.Referrers() {
+					cmp, ok := ref.(*ssa.BinOp)
+					if !ok || (cmp.Op != token.GTR && cmp.Op != token.GEQ && cmp.Op != token.NEQ && cmp.Op != token.LSS && cmp.Op != token.LEQ && cmp.Op != token.EQL) {
+						continue
+					}
+					other := cmp.Y
+					if cmp.Y == ssa.Value(ph) {
+						other = cmp.X
+					}
+					hasBound = true
+					if _, isConst := constInt(other); isConst {
+						stopsAtZero = true
+					}
+				}
+				bkey := "a variable is searched for in the scopes of the running function only"
+				switch {
+				case !hasBound:
+					r.Undecided(bkey, p.Pos(search.Pos()), "cannot see what ends the search over the scope stack")
+				case stopsAtZero:
+					r.Fail(bkey, p.Pos(ia.Pos()), "the search over the scope stack runs down to its bottom — through the scopes of every function that is still running: a callee that reads or assigns a name it has not declared finds its caller's parameter, local or loop variable of that name, so `function g() { n = 99; } function f(n) { g(); return n; } return f(1);` returns 99 and the global n is never set (assignments to other names are not global, and the caller's variable does not keep its value)")
+				default:
+					r.OkNT(bkey, p.Pos(ia.Pos()), "the search is bounded below by a value that is not the constant 0 (the base of the running function's scopes)")
+				}
 			} else {
 				why = fmt.Sprintf("the search does not start at the innermost scope and walk outwards (starts at len: %v, steps down: %v)", startsAtLen, stepsDown)
 			}
@@ -1397,7 +1544,11 @@ func ruleScopeSearch(p *Program, r *Reporter) {
 				if !ok {
 					continue
 				}
-				u, ok := ia.X.(*ssa.UnOp)
+				base := ia.X
+				if sl, ok := base.(*ssa.Slice); ok {
+					base = sl.X // a part of the stack: e.local[from:]
+				}
+				u, ok := base.(*ssa.UnOp)
 				if !ok || fieldKey(u.X) != er.scopeField {
 					continue
 				}
@@ -1599,11 +1750,132 @@ func ruleTimeFields(p *Program, r *Reporter) {
 		} else {
 			r.Fail(key, p.Pos(fn.Pos()), fmt.Sprintf("%s() returns component %q of the time decomposition; its name requires %q", name, got, want[name]))
 		}
+		if !zoneDone[helper] {
+			zoneDone[helper] = true
+			timeZoneObligation(p, r, helper)
+		}
+	}
+}
+
+var zoneDone = map[*ssa.Function]bool{}
+
+// timeZoneObligation: the time that is decomposed has been moved into the
+// configured zone — the location named by $TZ, or UTC when that is unset — on
+// every path on which loading the location was possible.
+func timeZoneObligation(p *Program, r *Reporter, helper *ssa.Function) {
+	key := p.FnName(helper) + "/the time is decomposed in the configured zone (UTC when none is configured)"
+	var load *ssa.Call
+	var recvs []ssa.Value
+	for _, b := range helper.Blocks {
+		for _, ins := range b.Instrs {
+			c, ok := ins.(*ssa.Call)
+			if !ok || c.Call.StaticCallee() == nil {
+				continue
+			}
+			switch calleeFullName(&c.Call) {
+			case "time.LoadLocation":
+				load = c
+			case "(time.Time).Clock", "(time.Time).Date", "(time.Time).Weekday", "(time.Time).Hour", "(time.Time).Minute", "(time.Time).Second", "(time.Time).Year", "(time.Time).Month", "(time.Time).Day", "(time.Time).YearDay":
+				recvs = append(recvs, c.Call.Args[0])
+			}
+		}
+	}
+	if load == nil || len(recvs) == 0 {
+		r.Undecided(key, p.Pos(helper.Pos()), "the helper does not load a location / decompose a time in a recognised way")
+		return
+	}
+	// the name loaded: $TZ or the constant "UTC"
+	nameOK := true
+	nameWhy := ""
+	for _, o := range origins(load.Call.Args[0]) {
+		switch x := o.(type) {
+		case *ssa.Const:
+			if x.Value == nil || x.Value.Kind() != constant.String || constant.StringVal(x.Value) != "UTC" {
+				nameOK, nameWhy = false, "the default location is not \"UTC\""
+			}
+		case *ssa.Call:
+			if x.Call.StaticCallee() == nil || calleeFullName(&x.Call) != "os.Getenv" {
+				nameOK, nameWhy = false, "the location name comes from "+calleeFullName(&x.Call)
+			}
+		default:
+			nameOK, nameWhy = false, "the location name is neither $TZ nor the constant \"UTC\""
+		}
+	}
+	if !nameOK {
+		r.Fail(key, p.Pos(load.Pos()), nameWhy)
+		return
+	}
+	// every value the decomposition is applied to
+	bad := ""
+	seen := map[ssa.Value]bool{}
+	var chk func(v ssa.Value, from *ssa.BasicBlock)
+	chk = func(v ssa.Value, from *ssa.BasicBlock) {
+		if seen[v] || bad != "" {
+			return
+		}
+		seen[v] = true
+		switch x := v.(type) {
+		case *ssa.Phi:
+			for i, e := range x.Edges {
+				chk(e, x.Block().Preds[i])
+			}
+			return
+		case *ssa.Call:
+			if x.Call.StaticCallee() != nil {
+				switch calleeFullName(&x.Call) {
+				case "(time.Time).In", "(time.Time).UTC":
+					return
+				}
+			}
+		case *ssa.UnOp:
+			// a spilled local: look at what is stored
+			if al, ok := x.X.(*ssa.Alloc); ok && x.Op == token.MUL {
+				for _, ref := range *al.Referrers() {
+					if st, ok := ref.(*ssa.Store); ok && st.Addr == ssa.Value(al) {
+						chk(st.Val, st.Block())
+					}
+				}
+				return
+			}
+		}
+		// a time that was not moved into a zone: acceptable only on a path on
+		// which the location had been asked for (and could not be loaded)
+		if from == nil || !(load.Block() == from || load.Block().Dominates(from)) {
+			bad = "on some path the time is decomposed as it came from time.Unix — in the host's local zone — without the configured location (or UTC) having been applied: with $TZ unset, hour(), day(), weekday() … then depend on the zone of the machine the host runs on"
+		}
+	}
+	for _, v := range recvs {
+		chk(v, nil)
+	}
+	if bad != "" {
+		r.Fail(key, p.Pos(load.Pos()), bad)
+	} else {
+		r.OkNT(key, p.Pos(load.Pos()), "every decomposed time is the result of In(loc) unless loading the location failed; the name is $TZ or \"UTC\"")
 	}
 }
 
 // timeComponent: which result of Clock()/Date() (or Weekday) the returned
 // object's value derives from.
+// clauseMentions: some comparison in the clause mentions the given name.
+func clauseMentions(cl *ast.CaseClause, name string) bool {
+	found := false
+	ast.Inspect(cl, func(m ast.Node) bool {
+		if be, ok := m.(*ast.BinaryExpr); ok && strings.Contains(exprStr(be), name) {
+			found = true
+		}
+		return true
+	})
+	return found
+}
+
+// valueOfInstr: the instruction as a value, or nil.
+func valueOfInstr(ins ssa.Instruction) ssa.Value {
+	if v, ok := ins.(ssa.Value); ok {
+		return v
+	}
+	return nil
+}
+
 func timeComponent(v ssa.Value) string {
 	mi, ok := v.(*ssa.MakeInterface)
 	if !ok {
